@@ -21,8 +21,9 @@ for sid in sorted(os.listdir(SEEDED)):
         break
     needs = " ".join(m.get("needs", "").split())
     site = needs[:130]
-    rows.append((sid, site, ", ".join(caught) or "—", ", ".join(missed) or "—", first[:70]))
-print("| seeded change | what was changed (from its note) | caught by (quick tier) | missed by | first signature |")
-print("|---|---|---|---|---|")
+    at = (m.get("at_head") or {}).get("status", "live").split(":")[0]
+    rows.append((sid, site, at, ", ".join(caught) or "—", ", ".join(missed) or "—", first[:70]))
+print("| seeded change | what was changed (from its note) | at HEAD | caught by (quick tier) | missed by | first signature |")
+print("|---|---|---|---|---|---|")
 for r in rows:
     print("| " + " | ".join(x.replace("|", "/") for x in r) + " |")
